@@ -12,6 +12,21 @@ pub fn gen_ev(r: &mut Rng, thorough: bool, cx: &mut Ctx) {
         let n = if kind == 5 { 2 } else { per_kind };
         for _ in 0..n { let e = gen_event(r, kind, max_data); cx.emit(&e); }
     }
+    // coincidences between independent fields: every scalar field of an event carrying the same value, or the event's own code, or the packet length
+    {
+        let widths: [&[u8]; 16] = [&[16, 16], &[16], &[16, 16, 32], &[16, 16], &[16, 16], &[], &[16, 16, 8], &[16, 16, 8], &[16, 16, 8], &[16], &[16, 16, 32], &[16, 16, 16], &[16, 16, 16], &[16, 16, 8, 32], &[16, 16, 8], &[16, 16]];
+        for kind in 0..16u64 {
+            for j in 0..(if thorough { 4000 } else { 300 }) {
+                let mut e = gen_event(r, kind, 12);
+                let v: u64 = match j % 4 { 0 => r.u16b(), 1 => kind, 2 => e.len() as u64 + 3, _ => r.below(65536) };
+                for (i, w) in widths[kind as usize].iter().enumerate() {
+                    if kind == 4 && i == 2 { continue; }
+                    e[1 + i] = match *w { 8 => v & 0xff, 16 => v & 0xffff, _ => ((v & 0xffff) << 16) | (v & 0xffff) };
+                }
+                cx.emit(&e);
+            }
+        }
+    }
     // systematic sweeps of the scalar fields: every u8 value, and u16 values on a lattice (thorough: every u16 value)
     let widths: [&[u8]; 16] = [&[16, 16], &[16], &[16, 16, 32], &[16, 16], &[16, 16], &[], &[16, 16, 8], &[16, 16, 8], &[16, 16, 8], &[16], &[16, 16, 32], &[16, 16, 16], &[16, 16, 16], &[16, 16, 8, 32], &[16, 16, 8], &[16, 16]];
     for kind in 0..16u64 {
